@@ -538,8 +538,8 @@ class Emit:
         raise TypeError(t)
 
     def mark_in_union(self):
-        """--union-fp-bytes / --union-words: flag LLVM 'union.*' structs and the structs nested in them by value (idempotent)"""
-        if getattr(self, '_in_union_done', False) or not (self.opt_union_fp_bytes or self.opt_union_words):
+        """--union-fp-bytes: flag LLVM 'union.*' structs and the structs nested in them by value (idempotent)"""
+        if getattr(self, '_in_union_done', False) or not self.opt_union_fp_bytes:
             return
         self._in_union_done = True
         work = [n for n, t in self.m.named.items() if isinstance(t, StructT) and n.lstrip('%').strip('"').startswith('union.')]
@@ -550,11 +550,6 @@ class Emit:
             for e in t.els:
                 while isinstance(e, (ArrT, VecT)): e = e.el
                 if isinstance(e, NamedT) and isinstance(self.m.named.get(e.name), StructT): work.append(e.name)
-
-    def is_word_array(self, t):
-        """--union-words: [8k x i8] members of in_union structs are emitted as k uint64_t words"""
-        r = self.resolve(t)
-        return isinstance(r, ArrT) and isinstance(self.resolve(r.el), IntT) and self.bits(r.el) == 8 and r.n > 0 and r.n % 8 == 0
 
     def emit_struct_defs(self):
         """emit all struct definitions in dependency order"""
@@ -582,21 +577,6 @@ class Emit:
                 fs = ''.join((' uint8_t f%d[%d] __attribute__((aligned(%d)));' % (i, {'float': 4, 'double': 8}[self.resolve(e).k], {'float': 4, 'double': 8}[self.resolve(e).k]))
                              if isinstance(self.resolve(e), FloatT) and self.resolve(e).k in ('float', 'double')
                              else ' %s f%d;' % (self.cty(e), i) for i, e in enumerate(els))
-            elif self.opt_union_words and getattr(t, 'in_union', False):
-                # --union-words (alternative to --union-fp-bytes): double members of LLVM 'union.*' structs (and of the structs nested in
-                # them by value) become uint64_t, float members uint32_t, and [8k x i8] members k uint64_t words (member name w, so a
-                # by-name byte index would not compile). Same layout; all accesses already go through pointer casts. Reason: a POINTER
-                # stored into a byte array that CBMC splits into elements is read back as a concatenation of byte_extracts that the
-                # simplifier does not fold back into the pointer (every begin==end / end==cap test of a std::vector held in a
-                # std::variant stays symbolic); stored into a 64-bit integer scalar it is (uint64_t)p and reads back as p.
-                def wmember(i, e):
-                    r = self.resolve(e)
-                    if isinstance(r, FloatT) and r.k in ('float', 'double'):
-                        return ' %s f%d;' % ('uint64_t' if r.k == 'double' else 'uint32_t', i)
-                    if self.is_word_array(e):
-                        return ' struct { uint64_t w[%d]; } f%d;' % (r.n // 8, i)
-                    return ' %s f%d;' % (self.cty(e), i)
-                fs = ''.join(wmember(i, e) for i, e in enumerate(els))
             else:
                 fs = ''.join(' %s f%d;' % (self.cty(e), i) for i, e in enumerate(els))
             if not els:
@@ -767,17 +747,10 @@ class Emit:
         e = '(&(%s)[%s])' % (e, self.idx(ops[1], vals[1]))
         # cheaper when index 0
         path = ''
-        words = False
         for o, cv in zip(ops[2:], vals[2:]):
             rt = self.resolve(cur)
             if isinstance(rt, StructT):
                 n = int(o.text); path += '.f%d' % n; cur = rt.els[n]
-                if self.opt_union_words:
-                    self.mark_in_union()
-                    words = getattr(rt, 'in_union', False) and self.is_word_array(cur)
-            elif isinstance(rt, (ArrT, VecT)) and words:
-                # byte k of a member that --union-words emits as uint64_t words: address arithmetic instead of .a[k]
-                e = '((uint8_t*)(&(*%s)%s) + %s)' % (e, path, self.idx(o, cv)); path = ''; words = False; cur = rt.el
             elif isinstance(rt, (ArrT, VecT)):
                 path += '.a[%s]' % self.idx(o, cv); cur = rt.el
             else:
@@ -1165,7 +1138,6 @@ class Emit:
     opt_ptrdiff = False
     opt_flat_unions = False
     opt_union_fp_bytes = False
-    opt_union_words = False
     opt_zero_allocas = False
     opt_thread_br = False
     phi_tmps = set()
@@ -1680,7 +1652,6 @@ def main():
     ap.add_argument('--provided', default='', help='file listing C names (X_...) defined elsewhere')
     ap.add_argument('--ptrdiff', action='store_true', help='emit sub(ptrtoint p, ptrtoint q) as a C pointer difference (opt-in, see emit_ins)')
     ap.add_argument('--union-fp-bytes', action='store_true', help='emit float/double members of LLVM union.* structs (and structs nested in them by value) as byte arrays (opt-in, see emit_struct_defs)')
-    ap.add_argument('--union-words', action='store_true', help='emit double / [8k x i8] members of LLVM union.* structs (and structs nested in them by value) as uint64_t words (opt-in, see emit_struct_defs)')
     ap.add_argument('--flat-unions', action='store_true', help='emit integer members of LLVM union.* structs as byte arrays (opt-in, see emit_struct_defs)')
     ap.add_argument('--zero-allocas', action='store_true', help='declare every fixed-size alloca object zero-initialised (opt-in). CBMC constant-folds a load only when all bytes it covers are concrete; clang -O1 copies small structs as one i64, so ONE uninitialised member (struct pollfd::revents in Poll::add) makes the whole copied struct symbolic. Price, to be stated in spec.ASSUMPTIONS: behaviour that depends on reading uninitialised STACK memory is not explored (the model shows zeros / stale values)')
     ap.add_argument('--thread-br', action='store_true', help='jump-thread edges into blocks that only branch on a phi for which the edge supplies a constant (opt-in, see thread_target)')
@@ -1693,7 +1664,7 @@ def main():
         if f.isdef and any(re.search(c, n[1:].strip('"')) for c in a.cut):
             f.isdef = False; f.blocks = collections.OrderedDict(); cut_names.append(n[1:])
     e = Emit(m, roots)
-    e.opt_ptrdiff = a.ptrdiff; e.opt_flat_unions = a.flat_unions; e.opt_union_fp_bytes = a.union_fp_bytes; e.opt_union_words = a.union_words; e.opt_zero_allocas = a.zero_allocas; e.opt_thread_br = a.thread_br
+    e.opt_ptrdiff = a.ptrdiff; e.opt_flat_unions = a.flat_unions; e.opt_union_fp_bytes = a.union_fp_bytes; e.opt_zero_allocas = a.zero_allocas; e.opt_thread_br = a.thread_br
     e.cut_names = cut_names
     e.append = a.append
     if a.provided:
